@@ -190,6 +190,13 @@ def check(case) -> core.Out:
         lg.setLevel(old_level)
         lg.propagate = old_prop
     if any(f is not None for f in (f0, f1, f2, f3)):
+        esc = next((f for f in (f0, f1, f3) if f is not None and S.is_protocol_error(f)), None)
+        if esc is not None:
+            # a *protocol* error (the rejection itself) came out of read() under ERR_IGNORE /
+            # ERR_LOG instead of being reported the way quitonerror prescribes
+            out.viol.append((f"{PROP}|rejection-escapes:{type(esc).__name__}",
+                             f"{esc!r:.100} escaped from read() with errors ignored / logged; stream {data[:40].hex()}"))
+            return out
         if sum(f is not None for f in (f0, f1, f2, f3)) < 4 and not any(
                 type(f).__module__.startswith(("pynmeagps", "pyrtcm")) or "pynmeagps" in repr(getattr(f, "__traceback__", ""))
                 for f in (f0, f1, f2, f3) if f is not None) and not _from_dependency([f0, f1, f2, f3]):
